@@ -498,7 +498,7 @@ func midAcks(res *vf.Result, mf MainFinal, ar *oracle.Archive, l0 map[int][]arch
 		cs = append(cs, cand{a, t})
 	}
 	sort.Slice(cs, func(i, j int) bool { return cs[i].t < cs[j].t })
-	lim := cp.txids / 2
+	lim := cp.txids * 3
 	if len(cs) > lim {
 		res.Count("mid_acks_not_checked(cap)", len(cs)-lim)
 	}
